@@ -160,6 +160,16 @@ def gen_dataset(s: Choices, vdtype: str, tier: str, max_n: int = 200, allow_mult
             idx = [1] * n
         col["idx"] = idx
         col["nullpat"] = pat
+        col["inf_pair"] = None
+        if col["dtype"].startswith("float") and n >= 2 and s.chance(1, 8):
+            # +inf and -inf in two adjacent rows of one group: a block holding both has a NaN
+            # partial sum without holding a null
+            off = s.draw(n - 1)
+            for d in range(n - 1):
+                p = (off + d) % (n - 1)
+                if all(kc[p] == kc[p + 1] and kc[p] >= 0 for kc in key_codes):
+                    col["inf_pair"] = p
+                    break
     ds["cols"] = cols
     ds["mask_bits"] = mask_bits
     return ds
@@ -375,6 +385,9 @@ def col_array(col):
         idx = np.array(col["idx"], dtype=np.int64)
         out[idx == 4] = np.inf
         out[idx == 6] = -np.inf
+    p = col.get("inf_pair")
+    if p is not None and dt.startswith("float") and p + 1 < len(out):
+        out[p], out[p + 1] = np.inf, -np.inf
     return out
 
 
